@@ -104,7 +104,9 @@ class RecordingRS(np.random.RandomState):
     random_sample = random
 
     def choice(self, a, size=None, replace=True, p=None):
+        n0 = len(self.log)
         r = super().choice(a, size=size, replace=replace, p=p)
+        del self.log[n0:]          # legacy choice() draws through self.random_sample: keep only the drawn object
         self.log.append(("choice", size, np.asarray(r).ravel().tolist()))
         return r
 
@@ -767,12 +769,26 @@ def run(ctx):
     ctx.trusted += ["float fact used by C20_logit_range: for the cumulative weights c = cdf[-1] of the game and 0 <= u < 1, not (c <= u*c) "
                     "(Section hypothesis; proved for Q, spot-checked for binary64)",
                     "NumPy searchsorted(side='right') modelled by its specification on sorted arrays; exp() values are read from the object"]
+    import time
+    t0 = time.time()
+
+    def lap(name):
+        nonlocal t0
+        ctx.notes.append("%s: %.1fs" % (name, time.time() - t0))
+        if os.environ.get("VERIF_TIMING"):
+            print("  [timing] %s %.1fs" % (name, time.time() - t0))
+        t0 = time.time()
     brd_family(ctx, thorough)
+    lap("BRD/KMR/SamplingBRD")
     fcases, fmeta = fict_play(ctx, thorough)
+    lap("FictitiousPlay (Q)")
     fict_play_float(ctx, fcases, fmeta)
     fict_play_three(ctx, thorough)
+    lap("FictitiousPlay (float, three players)")
     local_interaction(ctx, thorough)
+    lap("LocalInteraction")
     logit_dynamics(ctx, thorough)
+    lap("LogitDynamics")
 
 
 def replay(data):
